@@ -49,3 +49,11 @@ Definition cov_row (x a : list Qc) (p i : nat) : Qc :=
 Definition energy_cov (a x : list Qc) (p : nat) : Qc :=
   sumn (fun t => sumn (fun j => cf a j * cf x (p + t - j)) (length a)
                * sumn (fun j => cf a j * cf x (p + t - j)) (length a)) (length x - p).
+
+(* a table with n rows of m entries: row j, column i holds f j i *)
+Definition table (n m : nat) (f : nat -> nat -> Qc) : list (list Qc) :=
+  map (fun j => map (fun i => f j i) (seq 0 m)) (seq 0 n).
+
+(* quadratic form sum_i sum_j a_i a_j K(i,j) (what both "inner(A, A)" compute) *)
+Definition qform (K : nat -> nat -> Qc) (a : list Qc) : Qc :=
+  sumn (fun i => sumn (fun j => cf a i * cf a j * K i j) (length a)) (length a).
